@@ -71,6 +71,9 @@ def cfgs(tier, seed):
         # a full block followed by a shorter last block (number of steps not a multiple of the steps per block)
         out.append(dict(base, sweeper='generic_implicit', qd='LU', prob='dahlquist', n=1, M=[2], NP=2, maxiter=3, jac=False, nsteps=3))
         out.append(dict(base, sweeper='generic_implicit', qd='IE', prob='dahlquist', n=1, M=[2, 1], NP=2, maxiter=2, predict='fine_only', nsteps=3))
+        # other node families (the description's node_type must reach the collocation object)
+        out.append(dict(base, sweeper='generic_implicit', qd='IE', prob='dahlquist', n=1, M=[3], NP=1, maxiter=6, node_type='EQUID'))
+        out.append(dict(base, sweeper='imex_1st_order', qd='IE', prob='dahlquist', n=1, M=[3], NP=2, maxiter=4, node_type='CHEBY-2', quad_type='GAUSS', jac=False))
         # different preconditioners for the two implicit parts
         out.append(dict(base, sweeper='multi_implicit', qd='LU', qd2='IE', prob='dahlquist', n=1, M=[3], NP=1, maxiter=6))
         # relative residual with a left end node (the first node's residual is identically zero there)
@@ -129,7 +132,7 @@ def run_task(rep, task):
 def cname(cfg):
     return (f"{cfg['sweeper']}/{cfg['qd']}/{cfg.get('quad_type', 'RADAU-RIGHT')}/{cfg['prob']}{cfg['n']}/M{'-'.join(map(str, cfg['M']))}/NP{cfg['NP']}x{cfg.get('blocks', 1)}/K{cfg['maxiter']}/"
             f"{cfg.get('predict')}/jac{int(cfg.get('jac', True))}/{cfg.get('residual_type', 'full_abs')}/ns{cfg.get('nsweeps', 1)}/f{int(bool(cfg.get('finter')))}/{cfg.get('initial_guess', 'spread')}"
-            + ('/atd' if cfg.get('all_to_done') else '') + ('/cu' if cfg.get('cu') else '') + (f"/etol{cfg['e_tol']}" if cfg.get('e_tol') is not None else '') + ('/exthook' if cfg.get('exthook') else '') + (f"/Q2{cfg['qd2']}" if cfg.get('qd2') else '') + (f"/nsteps{cfg['nsteps']}" if cfg.get('nsteps') else '') + ('/postrun-hook' if cfg.get('postrun') else '') + ('/inexact' if cfg.get('inexact') else '') + (f"/dtinit{cfg['dt_initial']}" if cfg.get('dt_initial') is not None else ''))
+            + ('/atd' if cfg.get('all_to_done') else '') + ('/cu' if cfg.get('cu') else '') + (f"/etol{cfg['e_tol']}" if cfg.get('e_tol') is not None else '') + ('/exthook' if cfg.get('exthook') else '') + (f"/Q2{cfg['qd2']}" if cfg.get('qd2') else '') + (f"/nsteps{cfg['nsteps']}" if cfg.get('nsteps') else '') + (f"/{cfg['node_type']}" if cfg.get('node_type') else '') + ('/postrun-hook' if cfg.get('postrun') else '') + ('/inexact' if cfg.get('inexact') else '') + (f"/dtinit{cfg['dt_initial']}" if cfg.get('dt_initial') is not None else ''))
 
 
 def coll_constant(Q, A, dt, weights=None):
@@ -164,7 +167,7 @@ def run_case(rep, cfg):
         L = ctl.MS[0].levels[0]
         posts = [s for s in wr.LOG if s['ev'] == 'post_step']
         copy_mode = bool(L.sweep.coll.right_is_node and not L.sweep.params.do_coll_update)
-        return dict(posts=posts, Q=np.array(L.sweep.coll.Qmat), A=A, uend=sp.terms(uend), w=(None if copy_mode else np.array(L.sweep.coll.weights)))
+        return dict(posts=posts, Q=np.array(L.sweep.coll.Qmat), A=A, uend=sp.terms(uend), w=(None if copy_mode else np.array(L.sweep.coll.weights)), M=int(L.sweep.coll.num_nodes))
 
     try:
         paths = explore(fn, max_paths=3000, timeout_ms=(120000 if rep.tier == 'quick' else 600000))
@@ -201,6 +204,17 @@ def run_case(rep, cfg):
             continue
         Q, A = r['Q'], r['A']
         M = Q.shape[0] - 1
+        if i == 0:
+            # the fine collocation problem is the one the DESCRIPTION asks for (node family, quadrature type, node count), not merely the one the sweeper holds
+            from pySDC.core.collocation import CollBase
+
+            ref = CollBase(cfg['M'][0], 0, 1, node_type=cfg.get('node_type', 'LEGENDRE'), quad_type=cfg.get('quad_type', 'RADAU-RIGHT'))
+            same = Q.shape == ref.Qmat.shape and bool(np.allclose(Q, ref.Qmat, rtol=0, atol=1e-14))
+            if not same:
+                rep.replayed += 1
+                rep.violation(f'{PID}/collocation-problem-of-the-description/{cfg["sweeper"]}', f'{name}: the sweeper iterates on a collocation matrix that is not the one of the requested nodes '
+                              f'(node_type {cfg.get("node_type", "LEGENDRE")}, quad_type {cfg.get("quad_type", "RADAU-RIGHT")}, {cfg["M"][0]} nodes): max difference {float(np.abs(Q - ref.Qmat).max()) if Q.shape == ref.Qmat.shape else "shape"}',
+                              {'task': ['run'], 'cfg': cfg, 'x': [0.5] * n, 'violated': [['collocation-problem-of-the-description']]})
         cst = coll_constant(Q, A, cfg['dt'], r['w'])
         Afr = sp.tofrac_matrix(A)
         prev_end = xs
